@@ -108,20 +108,23 @@ Definition b_finalize (d : bdb) (ver : N) (rids : list N) : eclass * bdb :=
 Definition lone_roots (d : bdb) (ver : N) : list sroot :=
   filter (fun r => match r_derived r with [] => true | _ => false end) (roots_at (b_meta d) ver).
 
-(* api.Visit (helpers.go:106-165) at the version's timestamp, in DFS order: a node that is not
-   inline is fetched with GetNode (ErrNodeNotFound when missing), and the visitor looks every
-   visited node up by key again (badger.go:789: a raw badger error when missing).  The
-   empty root has no node under the empty hash: GetNode fails. *)
-Fixpoint visit_nodes (ns inl : list N) (t : N) (st : store) : eclass :=
+(* api.Visit (helpers.go:106-165) at the version's timestamp, in DFS order.  A node that is not
+   attached is fetched with GetNode: a missing one aborts the traversal (ErrNodeNotFound).  The
+   visitor (badger.go:792-804) looks every visited node up by key again and stores the outcome
+   in ONE variable [innerErr] that every later call overwrites; returning false only skips the
+   node's children.  An attached leaf whose stand-alone key is gone therefore fails the Prune
+   (raw badger error) only if it is the LAST node visited; [acc] is that variable. *)
+Fixpoint visit_nodes (ns inl : list N) (t : N) (st : store) (acc : eclass) : eclass :=
   match ns with
-  | [] => EOk
-  | n :: r => if visible n t st then visit_nodes r inl t st
-              else if nmem n inl then EOther else ENodeNotFound
+  | [] => acc
+  | n :: r => if nmem n inl
+              then visit_nodes r inl t st (if visible n t st then EOk else EOther)
+              else if visible n t st then visit_nodes r inl t st EOk else ENodeNotFound
   end.
 
 Definition visit_root (d : bdb) (ver : N) (r : sroot) : eclass :=
   if is_empty_rid (r_id r) then ENodeNotFound
-  else let a := aux_get ver (r_id r) (b_aux d) in visit_nodes (a_reach a) (a_inl a) ver (b_store d).
+  else let a := aux_get ver (r_id r) (b_aux d) in visit_nodes (a_reach a) (a_inl a) ver (b_store d) EOk.
 
 (* Go iterates the roots map in random order: any failing root makes Prune fail; when several
    fail the class is that of one of them (the histories considered have at most one class) *)
